@@ -144,11 +144,13 @@ def vals(t):
 class M:
     def __init__(self, ty, name=None, skip=False, compact=False, rename=None, docs=(), encoded_as=False):
         self.ty, self.name, self.skip, self.compact, self.rename, self.docs, self.encoded_as = ty, name, skip, compact, rename, list(docs), encoded_as
+        self.foreign = []       # attributes of ANOTHER derive on this member (must be ignored by TypeInfo)
 
 
 class V:
     def __init__(self, name, shape, members=(), index=None, disc=None, skip=False, docs=()):
         self.name, self.shape, self.members, self.index, self.disc, self.skip, self.docs = name, shape, list(members), index, disc, skip, list(docs)
+        self.foreign = []
 
 
 class D:
@@ -165,6 +167,7 @@ class D:
         self.must_compile = must_compile
         self.name = name
         self.overlays = []
+        self.extra_derives = []
 
     def clone(self):
         return copy.deepcopy(self)
@@ -210,6 +213,7 @@ def inst_src(d, inst):
 def member_src(d, m, in_variant=False):
     lines = []
     for f, _ in m.docs: lines.append(f)
+    for a in m.foreign: lines.append(a)
     if m.skip: lines.append('#[codec(skip)]')
     if m.compact: lines.append('#[codec(compact)]')
     if m.encoded_as: lines.append('#[codec(encoded_as = "<%s as scale::HasCompact>::Type")]' % src(m.ty))
@@ -235,7 +239,7 @@ def first_member(d):
 def def_src(d):
     out = []
     for f, _ in d.docs: out.append(f)
-    derives = ['TypeInfo'] + (['Encode'] if d.encode else [])
+    derives = ['TypeInfo'] + (['Encode'] if d.encode else []) + d.extra_derives
     out.append('#[derive(%s)]' % ', '.join(derives))
     if d.repr: out.append('#[repr(%s)]' % d.repr)
     si = []
@@ -267,6 +271,7 @@ def def_src(d):
         out.append('pub enum %s%s%s {' % (d.name, g, wh))
         for v in d.variants:
             for f, _ in v.docs: out.append('    ' + f)
+            for a in v.foreign: out.append('    ' + a)
             if v.skip: out.append('    #[codec(skip)]')
             if v.index is not None: out.append('    #[codec(index = %d)]' % v.index)
             disc = (' = %d' % v.disc) if v.disc is not None else ''
@@ -749,7 +754,41 @@ def ov_encoded_as(d):
         k += 1
 
 
-OVERLAYS = [ov_skip_member, ov_skip_variant, ov_compact, ov_index, ov_discriminant, ov_rename, ov_docs, ov_capture, ov_replace, ov_placement, ov_macro, ov_encoded_as]
+def serde_ok(t):
+    k = t[0]
+    if k in ('int', 'bool', 'string'): return True
+    if k in ('vec', 'opt'): return serde_ok(t[1])
+    if k == 'tup': return all(serde_ok(x) for x in t[1])
+    return False
+
+
+def ov_foreign(d):
+    """helper attributes of another derive (serde) that share a word with codec / scale_info attributes:
+    #[serde(skip)], #[serde(rename = "..")], #[serde(skip_serializing)] must not influence the metadata"""
+    if d.generics or d.lifetime or d.constp or d.via_macro: return
+    if not all(serde_ok(m.ty) for m in all_members(d)): return
+    k = 0
+    for ml in members_lists(d):
+        for i, m in enumerate(ml):
+            for attr in ('#[serde(skip)]', '#[serde(rename = "zz")]', '#[serde(skip_serializing)]'):
+                if attr.startswith('#[serde(rename') and m.name is None: continue
+                c = d.clone()
+                members_lists(c)[k][i].foreign = [attr]
+                c.extra_derives = ['serde::Serialize']
+                c.overlays.append('%s on member %d/%d (another derive\'s attribute)' % (attr, k, i))
+                yield c
+        k += 1
+    if d.kind == 'enum':
+        for j in range(len(d.variants)):
+            for attr in ('#[serde(skip)]', '#[serde(rename = "zz")]'):
+                c = d.clone()
+                c.variants[j].foreign = [attr]
+                c.extra_derives = ['serde::Serialize']
+                c.overlays.append('%s on variant %d (another derive\'s attribute)' % (attr, j))
+                yield c
+
+
+OVERLAYS = [ov_skip_member, ov_skip_variant, ov_compact, ov_index, ov_discriminant, ov_rename, ov_docs, ov_capture, ov_replace, ov_placement, ov_macro, ov_encoded_as, ov_foreign]
 
 
 def rep_bases():
@@ -776,7 +815,7 @@ def enc_definitions(thorough):
         out.append(d)
     for b in bases:
         push(b)
-    structural = [ov_skip_member, ov_skip_variant, ov_compact, ov_index, ov_discriminant, ov_encoded_as]
+    structural = [ov_skip_member, ov_skip_variant, ov_compact, ov_index, ov_discriminant, ov_encoded_as, ov_foreign]
     for i, b in enumerate(bases):
         for ov in OVERLAYS:
             if not thorough and ov not in structural and i % 9 != 0:
